@@ -186,7 +186,8 @@ func (h *HyperLogLogRedis) mergeRegisters(key string) error {
 				vals1[i] = vals2[i]
 			end
 		end
-		redis.pcall('LPUSH', key1, unpack(vals1))
+		redis.pcall('DEL', key1)
+		redis.pcall('RPUSH', key1, unpack(vals1))
 		return true
 	`)
 	_, err := mergeRegistersScript.Run(
